@@ -2,6 +2,7 @@
 import g1
 
 PROPERTY = 'C07'
+THOROUGH_EXTRA = 60
 
 
 def subharnesses(tier):
@@ -62,7 +63,7 @@ def subharnesses(tier):
 
 
 def budget(tier, name):
-    return 400.0 if tier == 'quick' else 1500.0
+    return 400.0 if tier == 'quick' else 600.0
 
 
 def harness(S, spec):
